@@ -46,7 +46,7 @@ structure ParsedEvent where
   id    : Str
   type  : Str
   data  : Str
-  retry : Option Nat      -- reconnection time in force when the event was dispatched
+  retry : Option Nat      -- reconnection time set by a `retry` field of this event block, if any
   deriving DecidableEq, Repr
 
 structure PSt where
@@ -58,7 +58,7 @@ structure PSt where
 
 def allDigits (s : Str) : Bool := s != [] && s.all Char.isDigit
 
-def digitsToNat (s : Str) : Nat := s.foldl (fun n c => n * 10 + (c.toNat - 48)) 0
+def digitsToNat (s : Str) : Nat := Nat.ofDigitChars 10 s 0
 
 def splitField (line : Str) : Str × Str :=
   match line.span (· != ':') with
@@ -68,10 +68,10 @@ def splitField (line : Str) : Str × Str :=
 def processLine (st : PSt) (line : Str) : PSt :=
   if line == [] then
     -- dispatch
-    if st.dataBuf == [] then { st with dataBuf := [], typeBuf := [] }
+    if st.dataBuf == [] then { st with dataBuf := [], typeBuf := [], retry := none }
     else
       let d := st.dataBuf.dropLast   -- the buffer always ends with LF here
-      { st with dataBuf := [], typeBuf := [],
+      { st with dataBuf := [], typeBuf := [], retry := none,
                 out := { id := st.lastId, type := st.typeBuf, data := d, retry := st.retry } :: st.out }
   else if line.head? == some ':' then st
   else
@@ -94,5 +94,26 @@ def normaliseEOL : Str → Str
   | '\r' :: '\n' :: cs => '\n' :: normaliseEOL cs
   | '\r' :: cs => '\n' :: normaliseEOL cs
   | c :: cs => c :: normaliseEOL cs
+
+/-- What the hub writes on a subscriber stream: SSE comments (":\n", also the heartbeat) and events. -/
+inductive Chunk where
+  | comment
+  | event (e : Event)
+
+def Chunk.bytes : Chunk → Str
+  | .comment => [':', '\n']
+  | .event e => e.encode
+
+def noLineBreak (s : Str) : Prop := '\r' ∉ s ∧ '\n' ∉ s
+
+/-- What a conformant client must see for one published event. -/
+def Event.expected (e : Event) : ParsedEvent :=
+  { id := e.id, type := e.type, data := normaliseEOL e.data,
+    retry := if e.retry = 0 then none else some e.retry }
+
+def Chunk.events : List Chunk → List Event
+  | [] => []
+  | .comment :: cs => Chunk.events cs
+  | .event e :: cs => e :: Chunk.events cs
 
 end Mercure
